@@ -1128,6 +1128,53 @@ func runCase(o *hx.Out, ev *env, d caseDesc, origin string) {
 			}
 			if d.Mode == "export" {
 				berr = ev.src.ExportShard(id, time.Unix(0, d.ExLo), time.Unix(0, d.ExHi), &archive)
+			} else if d.Mode == "racecompact" {
+				// a full compaction commits (FileStore.replace) while the backup has picked its files
+				// but not yet linked them: FileStore.snapshotMu must hold the commit back
+				rdone := make(chan error, 2)
+				fired := false
+				tsm1.SetVerifPoint(func(name string, args ...interface{}) {
+					if name != "filestore.snapshot.refs" || fired {
+						return
+					}
+					fired = true
+					var paths []string
+					for _, f := range eng.FileStore.Files() {
+						paths = append(paths, f.Path())
+					}
+					if len(paths) == 0 {
+						o.Count("racecompact:no-files")
+						rdone <- nil
+						return
+					}
+					eng.Compactor.EnableCompactions()
+					out, cerr := eng.Compactor.CompactFull(paths)
+					if cerr != nil {
+						o.Count("racecompact:compaction-error")
+						rdone <- nil
+						return
+					}
+					go func() { rdone <- eng.FileStore.ReplaceWithCallback(paths, out, nil) }()
+					select {
+					case e := <-rdone:
+						o.Count("racecompact:commit-ran-inside-backup")
+						rdone <- e
+					case <-time.After(150 * time.Millisecond):
+						o.Count("racecompact:commit-held-back")
+					}
+				})
+				berr = ev.src.BackupShard(id, since, &archive)
+				tsm1.SetVerifPoint(nil)
+				if fired {
+					select {
+					case e := <-rdone:
+						if e != nil {
+							panic(fmt.Sprintf("compaction commit failed: %v", e))
+						}
+					case <-time.After(60 * time.Second):
+						panic("a compaction commit held back by a backup never completed")
+					}
+				}
 			} else if busyRelease != nil {
 				// Engine.snapshotMu must hold the backup's own snapshot back until the one in
 				// flight is committed
@@ -1647,7 +1694,7 @@ func runIncr(o *hx.Out, ev *env, d caseDesc, origin string) {
 }
 
 func emit(o *hx.Out, d caseDesc, r *result, origin string) {
-	mode := map[string]int{"full": 0, "import": 1, "since": 2, "cut": 3, "rpc": 4, "export": 5, "busy": 6, "srcfault": 7}[d.Mode]
+	mode := map[string]int{"full": 0, "import": 1, "since": 2, "cut": 3, "rpc": 4, "export": 5, "busy": 6, "srcfault": 7, "racecompact": 0}[d.Mode]
 	if d.Mode == "srcfault" && d.ViaRPC {
 		mode = 8
 	}
@@ -1905,6 +1952,13 @@ func genCase(r *hx.Rand, i int) caseDesc {
 			d.Extra = 1 + r.Intn(3)
 		} else if r.Chance(12) {
 			d.SnapOff, d.During = true, nil
+		} else if r.Chance(25) {
+			// a compaction commits while the backup is linking its files
+			d.Mode, d.During = "racecompact", nil
+			d.Ops = append(d.Ops, op{Kind: "snapshot"}, op{Kind: "write", Pts: genPts(r, 1+r.Intn(3), 20)}, op{Kind: "snapshot"})
+			if r.Chance(50) {
+				d.Ops = append(d.Ops, op{Kind: "write", Pts: genPts(r, 1+r.Intn(3), 20)})
+			}
 		} else if r.Chance(30) {
 			// the backup is requested while a background cache snapshot is in flight
 			d.Mode, d.During = "busy", nil
